@@ -323,4 +323,65 @@ def checkSessionF (st : St) (now tok : Nat) (dbOK : Bool) : CheckRes × St :=
 def logoutF (st : St) (tok : Nat) (dbOK : Bool) : St :=
   { st with mem := st.mem.erase tok, db := if dbOK then st.db.erase tok else st.db }
 
+
+/-- optionalAuthThird without a session cookie: HTTP Basic credentials are
+checked by `findUser` directly — evaluated, not gated by the limiter, a
+failure is not counted. -/
+def basicAuth (st : St) (good : Bool) : Bool × St := (good, { st with evals := st.evals + 1 })
+
+/-! ### code level switch: the proposed repair of the uint32 horizon
+
+/verif/fixes/c12/session_expiry_serial_compare.patch replaces `s.expire <= now`
+in checkSession and loadSessions by the serial-number comparison
+`left := expire - now (mod 2^32); left == 0 || left > ttl`.  `fix = false` is the
+code of the unchanged tree (the functions above). -/
+
+/-- `sessionExpired(expire, now, ttl)` of the patch / `expire <= now` of the tree -/
+def expiredAt (fix : Bool) (expire now32 ttl : Nat) : Bool :=
+  if fix then
+    let left := (expire + u32 - now32) % u32
+    left == 0 || decide (left > ttl)
+  else decide (expire ≤ now32)
+
+def checkSessionFX (fix : Bool) (st : St) (now tok : Nat) (dbOK : Bool) : CheckRes × St :=
+  match st.mem tok with
+  | none => (.notFound, st)
+  | some s =>
+    if expiredAt fix s.expire (now32 now) st.ttl then
+      (.expired, { st with mem := st.mem.erase tok, db := if dbOK then st.db.erase tok else st.db })
+    else
+      let newExpire := (now32 now + st.ttl) % u32
+      if s.expire / daySec ≠ newExpire / daySec then
+        let s' : Sess := { s with expire := newExpire }
+        (.ok, { st with mem := st.mem.set tok s', db := if dbOK then st.db.set tok s' else st.db })
+      else (.ok, st)
+
+def restartX (fix : Bool) (st : St) (now : Nat) : St :=
+  let live : FMap Sess := fun k => (st.db k).filter (fun s => !expiredAt fix s.expire (now32 now) st.ttl)
+  { st with rl := st.rl.map (fun l => { l with recs := FMap.empty }), mem := live, db := live }
+
+/-! ### the sessions.db record (session.serialize / deserialize) -/
+
+def be (n : Nat) : Nat → List Nat
+  | 0 => []
+  | k + 1 => (n / 256 ^ k) % 256 :: be n k
+
+def unbe : List Nat → Nat
+  | [] => 0
+  | b :: rest => b * 256 ^ rest.length + unbe rest
+
+/-- serialize: expire (4 bytes BE), len(userName) (2 bytes BE), userName -/
+def encodeSess (name : List Nat) (expire : Nat) : List Nat :=
+  be expire 4 ++ be name.length 2 ++ name
+
+/-- deserialize: at least 6 bytes, at least nameLen bytes of name; the name
+is EVERYTHING after the sixth byte (quirk: trailing bytes become part of it) -/
+def decodeSess (data : List Nat) : Option (List Nat × Nat) :=
+  if data.length < 6 then none
+  else
+    let expire := unbe (data.take 4)
+    let nameLen := unbe ((data.drop 4).take 2)
+    let rest := data.drop 6
+    if rest.length < nameLen then none else some (rest, expire)
+
 end AGH.C12
